@@ -244,7 +244,11 @@ def _solution_record(program, Q, f, cap_call, idx, seed, nmax):
         rec["k"] = None
         rec["R"] = None
     subs = {k: fr_str(v) for k, v in env_noinit.items()}
-    rec["f_values"] = [list(eval_closed_form(f, n, subs)) for n in range(nmax + 1)]
+    # values beyond the oracle window let the check confirm a certificate disagreement at n > nmax with sympy's own
+    # evaluation of f (and tell it from a term-shape extraction problem of the harness)
+    ext = [list(eval_closed_form(f, n, subs)) for n in range(max(nmax, 16) + 1)]
+    rec["f_values"] = ext[:nmax + 1]
+    rec["f_values_ext"] = ext
     f_at = _subs_by_name(f, values)
     left = [s.name for s in sympy.sympify(f_at).free_symbols if s.name != "n"]
     if left:
